@@ -53,6 +53,9 @@ let check inp obs =
     let guard_hit = ref false in
     let failure_seen = ref false in
     let guard_at_failure = ref false in
+    let attributable = ref false in
+    let div_before = ref false in
+    let last_f = ref None in
     List.iter (fun ev -> if not !stop then begin
       let k = ioh (sub ev 1) in
       let e = if ev.[0] = 'i' then (imported.(k) <- true; Import (nat_of_int k))
@@ -86,7 +89,7 @@ let check inp obs =
       (match !impl with
        | [] -> if !why = [] then why := [Printf.sprintf "ev%d(%s):missing" !nev ev]
        | (ir, is_, ia, in_, ix, iff, _) :: rest ->
-         impl := rest;
+         impl := rest; last_f := Some iff;
          let iok = (ir = "ok") in
          (* Substrate keeps pending_forced_changes ordered by (effective number, canon height) *)
          (if !why = [] && String.length iff > 2 && iff <> "F=-" && iff <> "F=?" then begin
@@ -96,11 +99,16 @@ let check inp obs =
             let rec sorted = function a :: (b :: _ as r) -> key a <= key b && sorted r | _ -> true in
             if not (sorted bl) then why := [Printf.sprintf "ev%d(%s):forced changes not ordered by (effective number, announcing number): %s" !nev ev iff]
           end);
-         (* known-finding guard: a pending forced change announced on the finalised chain *)
-         (match e, !sp with
-          | Finalise h, Some q ->
-            if List.exists (fun c -> is_anc t c.pc_blk h) q.s_forced then guard_hit := true
-          | _ -> ());
+         (* known-finding guard: a pending forced change announced on the finalised chain
+            (Enum.guard_forced_on_finalised).  A failure is attributed to the finding only when it
+            shows at such a finalisation itself, or later WHILE the pending forced changes of the
+            specification and of the implementation still differ because of it (second round: the
+            guard used to cover every later event of the case). *)
+         let guard_now = (match e, !sp with
+          | Finalise h, Some q -> List.exists (fun c -> is_anc t c.pc_blk h) q.s_forced
+          | _ -> false) in
+         if guard_now then guard_hit := true;
+         attributable := guard_now || (!guard_hit && !div_before);
          (match !sp with
           | None -> ()
           | Some sp0 ->
@@ -136,7 +144,19 @@ let check inp obs =
                     why := [Printf.sprintf "ev%d(%s):%s" !nev ev (String.concat "; " (List.rev !d))]
                 end
             end));
-      if !why <> [] && not !failure_seen then begin failure_seen := true; guard_at_failure := !guard_hit end;
+      if !why <> [] && not !failure_seen then begin failure_seen := true; guard_at_failure := !attributable end;
+      (* do the pending forced changes (on blocks the block state still knows) differ now? *)
+      (match !sp, !last_f with
+       | Some q, Some iff when String.length iff > 2 && iff <> "F=?" ->
+         let fb = nat_of_int !fin in
+         let known b = is_anc t b fb || is_anc t fb b in
+         let sf = List.sort compare (List.filter_map (fun c ->
+           if known c.pc_blk then Some (int_of_nat c.pc_blk) else None) q.s_forced) in
+         let implf = if iff = "F=-" then [] else
+           List.sort compare (List.map ioh (String.split_on_char '.' (sub iff 2))) in
+         div_before := (sf <> implf);
+         if !div_before && !guard_hit then tag "guard:pending-forced-differ"
+       | _ -> ());
       incr nev
     end) (lst el);
     let model = String.concat " " (List.rev !toks) in
